@@ -64,6 +64,7 @@ EXCLUDE_FLAGS = [
     ('assumed_caller_lb', 'known:assumed-shape-caller-lb (assumed-shape dummy, caller array with lower bound /= 1)'),
     ('act_muldiv', 'known:multiplicative-actual (product / quotient actual substituted next to * or /)'),
     ('member_uses_param', 'known:constants-member-use (inlined PARAMETER still referenced by an internal procedure)'),
+    ('int_uncalled', 'known:uncalled-member (declarations of a never-called internal subroutine are hoisted)'),
 ]
 
 
@@ -226,7 +227,7 @@ def root_cause(text, ep, o):
     from loki.ir import FindNodes, FindVariables, FindInlineCalls
     from loki.expression import symbols as sym
     try:
-        sf = parse(text)
+        sf = parse(text) if isinstance(text, str) else text     # (read only: a parsed file may be passed and re-used)
         kernel = sf['kmod']['kernel']
     except Exception:  # noqa
         return None
@@ -312,8 +313,7 @@ def root_cause(text, ep, o):
             if str(c.function).lower() in sfnames:
                 all_calls.append((None, list(c.parameters), c))
     for r, actuals, c in all_calls:
-        # (ParenthesisedMul / ParenthesisedDiv = written in parentheses in the source: printed with them)
-        if any(isinstance(a, (pp.Product, pp.Quotient)) and not type(a).__name__.startswith('Parenthesised') for a in actuals):
+        if any(is_muldiv(a) for a in actuals):
             return 'multiplicative-actual'
     # 1c. LBOUND / UBOUND of an array dummy with lower bound /= 1
     for r in inl_subs + inl_funs:
@@ -328,6 +328,16 @@ def root_cause(text, ep, o):
         for w in FindNodes(ir.WhileLoop).visit(h.body):
             if any(str(c.function).lower() in funs for c in FindInlineCalls().visit(w.condition)):
                 return 'function-in-while'
+    # 1e. internal subroutine that is never called but has a local array sized by one of its dummies
+    if app['internal']:
+        called = {str(c.name).lower() for c in FindNodes(ir.CallStatement).visit(kernel.body)}
+        for m in members:
+            if not m.is_function and m.name.lower() not in called:
+                dn = set(dummies(m))
+                for v in m.variables:
+                    if isinstance(v, sym.Array) and v.name.lower() not in dn and \
+                            {x.name.lower() for d in (v.shape or ()) for x in FindVariables().visit(d)} & dn:
+                        return 'uncalled-member'
     # 2. RETURN in an inlined subroutine
     for r in inl_subs:
         if FindNodes(ir.ReturnStmt).visit(r.body):
@@ -368,6 +378,24 @@ def root_cause(text, ep, o):
                 if cond.has_elseif and not FindVariables().visit(cond.else_body[0].condition):
                     return 'dead-code-elseif'
     return None
+
+
+def is_muldiv(e):
+    """
+    a product / quotient that is not written in parentheses in the source (ParenthesisedMul / ParenthesisedDiv are
+    printed with them); a sign `-x` is a Product((-1, x)) in loki and does not count
+    """
+    from pymbolic import primitives as pp
+    if type(e).__name__.startswith('Parenthesised'):
+        return False
+    if isinstance(e, pp.Quotient):
+        return True
+    if isinstance(e, pp.Product):
+        rest = [c for c in e.children if not (isinstance(c, int) and c == -1) and not (intval(c) == -1)]
+        if len(rest) >= 2:
+            return True
+        return len(rest) == 1 and is_muldiv(rest[0])
+    return False
 
 
 def intval(e):
@@ -645,7 +673,7 @@ def evaluate_program(spec, variants, rules=True):
     c1 = cpu_seconds()
     sh = Shared(text, driver)
     try:
-        before = None
+        before = sf0 = None
         by_text = {}
         for k, (ep, o) in enumerate(variants):
             r = {'ep': ep, 'opts': o, 'k': k + 1}
@@ -661,7 +689,11 @@ def evaluate_program(spec, variants, rules=True):
             try:
                 if before is None:
                     with time_limit(LOKI_TIME_LIMIT):
-                        before = dump(parse(text))
+                        sf0 = parse(text)
+                        before = dump(sf0)
+                if rules:
+                    # self-check of the exclusions: no trigger of a listed finding may be present in a searched input
+                    r['trigger'] = root_cause(sf0, ep, o)
                 cand, changed = transform(text, ep, o, order, before)
             except Exception as e:  # noqa: loki raised on a generated input -> rejected bucket
                 r.update(status='reject', exc=e)
@@ -729,6 +761,9 @@ def report(ctx, spec, info, results, reduce=True):
                 ctx.exclude(why)
             continue
         ctx.case(case, nontrivial, classes)
+        if r.get('trigger'):
+            ctx.count('LEAK:known-trigger-present:' + r['trigger'])
+            ctx.note('generator leak: the trigger of the listed finding %s occurs in a searched program' % r['trigger'])
         if r.get('note'):
             ctx.count('shared-executable-disagreement-not-confirmed')
         if st == 'ub':
